@@ -95,6 +95,39 @@ class Ctx:
             raise Undecided("driver %s failed rc=%d: %s" % (args[0], r.returncode, (r.stderr or r.stdout)[-2000:]))
         return r
 
+    def spawn(self, argv, env=None):
+        """Start a driver with stdout/stderr going to files (never pipes: the library prints diagnostics on stdout,
+        and a full pipe would block the library call that prints them)."""
+        self._nspawn = getattr(self, "_nspawn", 0) + 1
+        base = os.path.join(self.scratch, "proc-%d" % self._nspawn)
+        fo, fe = open(base + ".out", "w+"), open(base + ".err", "w+")
+        p = subprocess.Popen([str(a) for a in argv], cwd=self.scratch, env=env or self.env, stdout=fo, stderr=fe, text=True)
+        p._files = (fo, fe, base)
+        return p
+
+    def wait(self, p, timeout=3000):
+        """Returns (returncode, tail of stdout, tail of stderr)."""
+        try:
+            p.wait(timeout=timeout)
+        except subprocess.TimeoutExpired:
+            p.kill()
+            raise Undecided("driver timed out")
+        fo, fe, base = p._files
+        outs = []
+        for f in (fo, fe):
+            f.flush()
+            f.seek(0, 2)
+            n = f.tell()
+            f.seek(max(0, n - 20000))
+            outs.append(f.read())
+            f.close()
+        for suffix in (".out", ".err"):
+            try:
+                os.remove(base + suffix)
+            except OSError:
+                pass
+        return p.returncode, outs[0], outs[1]
+
     def drv_json(self, *args, **kw):
         r = self.drv(*args, **kw)
         last = [l for l in r.stdout.strip().split("\n") if l.strip()]
